@@ -276,6 +276,11 @@ func isRecursive(fn *ssa.Function, stack []*Frame) bool {
 
 func (v *Verifier) callFn(st *State, in *ssa.Call, fn *ssa.Function, bindings []*Term, args []*Term) bool {
 	if fn.Blocks == nil || !inRepoFn(fn) {
+		// a dependency with an assumed (trusted) contract written in the repository
+		if c := v.contractFor(fn); c != nil && c.Trusted && !st.initMod && fn.Blocks != nil {
+			v.assumeNote("assumed contract of dependency: " + c.Key)
+			return v.applyContract(st, in, c, fn, fn.Signature, args)
+		}
 		return v.external(st, in, fn, args)
 	}
 	c := v.contractFor(fn)
